@@ -381,10 +381,11 @@ func pathGindexAgrees(v uint64) bool {
 func TestC11(t *testing.T) {
 	out := openOut(t, "C11")
 	defer out.close()
-	for _, v := range []uint64{1, 2, 3, 4, 5, 6, 7, 12, 255, 256, 1 << 20, 1<<40 + 99, 1 << 62, 1<<63 + 12345, ^uint64(0)} {
-		if !pathGindexAgrees(v) {
-			t.Fatalf("harness: pathGindex disagrees with Gindex64 on %x", v)
-		}
+	// Gindex64 and the caller-defined index behave alike on 64-bit values (the model's answer is
+	// a constant 1: both implement the same integer definition)
+	for _, v := range []uint64{1, 2, 3, 4, 5, 6, 7, 12, 255, 256, 1 << 20, 1<<40 + 99, 1 << 62, 1<<62 + 9, 1<<63 - 1, 1 << 63, 1<<63 + 12345, 3 << 62, ^uint64(0) - 1, ^uint64(0)} {
+		vv := v
+		out.emit("gsame", "gsame", []string{hx(vv)}, guard(func() string { return "same=" + b01(pathGindexAgrees(vv)) }))
 	}
 	// generalized indices that are not Gindex64 values: the same operations, the index handed
 	// over as a caller-defined Gindex; shallow ones and ones far deeper than 64 levels (a
@@ -444,6 +445,17 @@ func TestC11(t *testing.T) {
 					vsx = v.Sexp()
 				}
 				c11Gindex = g
+				if len(g) <= 63 && rng.Intn(2) == 0 {
+					// the same index as a Gindex64 (up to the full 64 bits)
+					gv := uint64(1)
+					for _, b := range g {
+						gv <<= 1
+						if b {
+							gv |= 1
+						}
+					}
+					c11Gindex = tree.Gindex64(gv)
+				}
 				obs := c11Obs(sh, op, 0, e, v, h)
 				c11Gindex = nil
 				out.emit("deep", "c11", []string{sh.Sexp(), op, g.hex(), b01(e), vsx}, obs)
